@@ -35,6 +35,7 @@ def templates(cfg):
     T("null_order", lambda p, t: t >> p.arrange(t.a.nulls_last(), t.b.descending().nulls_first(), t.s) >> p.mutate(r=p.rank(arrange=[t.f.descending().nulls_last()])))
     T("casts", lambda p, t: t >> p.mutate(i=t.f.cast(p.Int64()), s2=t.a.cast(p.String()), f2=t.a.cast(p.Float64()), b2=t.p.cast(p.Int64()), n=t.s.cast(p.Int64())))
     T("casts_nonstrict", lambda p, t: t >> p.mutate(n=t.s.cast(p.Int64(), strict=False), i=t.f.cast(p.Int64(), strict=False)))
+    T("casts_nonstrict_int", lambda p, t: t >> p.mutate(e=(t.a + 1).cast(p.Int8(), strict=False), l=p.lit(5).cast(p.Int8(), strict=False), c=t.a.cast(p.Int16(), strict=False), f=t.f.cast(p.Int32(), strict=False), b=(t.a > 0).cast(p.Int64(), strict=False)))
     T("strings", lambda p, t: t >> p.mutate(l=t.s.str.len(), u=t.s.str.upper(), st=t.s.str.starts_with("a%"), en=t.s.str.ends_with("_"), co=t.s.str.contains("x", allow_regex=False), re=t.s.str.replace_all("a", "b"), sl=t.s.str.slice(1, 2), tr=t.s.str.strip(), cat=t.s + "z"))
     T("numeric_fns", lambda p, t: t >> p.mutate(r=t.f.round(1), r2=t.f.round(-1), fl=t.f.floor(), ce=t.f.ceil(), ab=t.a.abs(), fd=t.a // t.b, md=t.a % t.b, td=t.a / t.b, pw=t.a**2))
     T("horizontal", lambda p, t: t >> p.mutate(mx=p.max(t.a, t.b, 0), mn=p.min(t.a, t.b), co=p.coalesce(t.a, t.b), cl=t.a.clip(0, 5), isin=t.a.is_in(1, 2, None)))
